@@ -63,6 +63,17 @@ fn slot_author(slot: u16) -> AuthorId {
     }
 }
 
+/// Timestamps a peer's head report may name: near the entries' own (T0 + t), or anything else a u64 can hold - also far
+/// beyond what the receiver would accept as an entry (a report is not an entry).
+fn news_ts(t: u8) -> u64 {
+    const FAR: [u64; 8] = [0, 1, T0 - 1, T0 + 3 + 600_000_000, T0 + 3 + 600_000_001, T0 + 3 + 3_600_000_000, u64::MAX - 1, u64::MAX];
+    if t < 8 {
+        T0 + t as u64
+    } else {
+        FAR[(t as usize - 8) % FAR.len()]
+    }
+}
+
 fn ts_strategy() -> impl Strategy<Value = u64> {
     prop_oneof![
         6 => (0u64..6).prop_map(|t| T0 + t),
@@ -105,7 +116,7 @@ impl Prop for C13 {
             8 => egen().prop_map(Step::Remote),
             1 => Just(Step::RemoveAndRecreate),
             1 => Just(Step::Reopen),
-            3 => vec((0u8..8, 0u8..8), 0..=4).prop_map(Step::News),
+            3 => vec((0u8..8, prop_oneof![4 => 0u8..8, 1 => 8u8..16]), 0..=4).prop_map(Step::News),
             2 => crate::gen::noise().prop_map(Step::Noise),
         ];
         let hist = (prop::bool::weighted(0.2), pools(6), vec(step, 1..=max_steps))
@@ -361,9 +372,9 @@ fn check_history(ctx: &mut Ctx, h: &History) -> Outcome {
                     let mut repm: BTreeMap<AuthorId, u64> = BTreeMap::new();
                     for (slot, t) in report {
                         let a = if (*slot as usize) < authors.len() { author(authors[*slot as usize]).id() } else { slot_author(*slot as u16 + 6) };
-                        rep.insert(a, T0 + *t as u64);
+                        rep.insert(a, news_ts(*t));
                         let e = repm.entry(a).or_insert(0);
-                        *e = (*e).max(T0 + *t as u64);
+                        *e = (*e).max(news_ts(*t));
                     }
                     let want = repm.iter().filter(|(a, t)| mine.get(*a).map(|m| **t > *m).unwrap_or(true)).count() as u64;
                     let got = es(st.store.has_news_for_us(ns, &rep))?.map(|n| n.get()).unwrap_or(0);
